@@ -33,6 +33,28 @@ structure Sem (c : Ctx) (q : List Nat) (pr : Proc) : Prop where
   wf : WF pr.fs
   nl : NoLinkAt pr.fs c.T (initOf q)
 
+theorem locate_ok {fs : FS} {cwd : List Name} {p : List Nat} {loc : Loc} (h : locate fs cwd p = .ok loc) :
+    locate0 fs cwd p = .ok loc ∧ p.length < pathMax := by
+  unfold locate at h
+  split at h
+  · simp at h
+  · rename_i hl; exact ⟨h, by omega⟩
+
+theorem locate_of_lt {fs : FS} {cwd : List Name} {p : List Nat} (h : p.length < pathMax) :
+    locate fs cwd p = locate0 fs cwd p := by
+  unfold locate; rw [if_neg (by omega)]
+
+theorem lookupFollow_ok {fs : FS} {cwd : List Name} {p : List Nat} {r : List Name × Tree}
+    (h : lookupFollow fs cwd p = .ok r) : lookupFollow0 fs cwd p = .ok r ∧ p.length < pathMax := by
+  unfold lookupFollow at h
+  split at h
+  · simp at h
+  · rename_i hl; exact ⟨h, by omega⟩
+
+theorem lookupFollow_of_lt {fs : FS} {cwd : List Name} {p : List Nat} (h : p.length < pathMax) :
+    lookupFollow fs cwd p = lookupFollow0 fs cwd p := by
+  unfold lookupFollow; rw [if_neg (by omega)]
+
 theorem dropLast_getLast? {α} (l : List α) (a : α) (h : l.getLast? = some a) : l = l.dropLast ++ [a] := by
   have hne : l ≠ [] := by intro e; subst e; simp at h
   have := List.dropLast_concat_getLast hne
@@ -60,7 +82,8 @@ theorem locate_fam {c : Ctx} {q p : List Nat} {pr : Proc} (hS : Sem c q pr) (hF 
   rcases hF with rfl | ⟨hr, hp⟩
   · left
     have e : compsOf [DOT] = [DOTN] := by decide
-    unfold locate at h
+    replace h := (locate_ok h).1
+    unfold locate0 at h
     simp only [e, show ([DOT] : List Nat) ≠ [] by decide, if_false, show isAbs [DOT] = false by decide] at h
     simp only [List.getLast?_singleton, true_or, if_true] at h
     simp only [Bool.false_eq_true, ↓reduceIte] at h
@@ -74,7 +97,8 @@ theorem locate_fam {c : Ctx} {q p : List Nat} {pr : Proc} (hS : Sem c q pr) (hF 
       simp only [hT] at h
       simp at h; exact ⟨rfl, h.symm⟩
   · right
-    unfold locate at h
+    replace h := (locate_ok h).1
+    unfold locate0 at h
     simp only [hr.ne_nil, if_false, hr.notAbs] at h
     cases hl : (compsOf p).getLast? with
     | none => exact absurd (List.getLast?_eq_none_iff.mp hl) hr.ne
